@@ -123,3 +123,73 @@ def _randcomp(rng, L):
         ws.append(w)
         L -= w
     return ws
+
+
+# ---------------------------------------------------------------------------------------------
+# small coolers
+# ---------------------------------------------------------------------------------------------
+
+def layout_bins(nbins_per_chrom, width=10):
+    """uniform bins: chromosome c has nbins_per_chrom[c] bins of `width`"""
+    out = []
+    for c, k in enumerate(nbins_per_chrom):
+        for t in range(k):
+            out.append([c, t * width, (t + 1) * width])
+    return out
+
+
+def split_layout(rng, n):
+    """split n bins over 1..3 chromosomes"""
+    if n <= 1 or rng.random() < 0.4:
+        return [n]
+    k = rng.randint(1, n - 1)
+    if n - k >= 2 and rng.random() < 0.3:
+        m = rng.randint(1, n - k - 1)
+        return [k, m, n - k - m]
+    return [k, n - k]
+
+
+def pixels_df(pixels, dtype="int32", extra=None):
+    import numpy as np
+    import pandas as pd
+    d = {
+        "bin1_id": np.array([p[0] for p in pixels], dtype=np.int64),
+        "bin2_id": np.array([p[1] for p in pixels], dtype=np.int64),
+        "count": np.array([p[2] for p in pixels], dtype=dtype),
+    }
+    if extra:
+        for k, vals in extra.items():
+            d[k] = np.array(vals)
+    return pd.DataFrame(d)
+
+
+def write_cooler(path, bins, pixels, symm=True, **kw):
+    import cooler
+    cooler.create_cooler(path, bins_df(bins), pixels_df(pixels, kw.pop("dtype", "int32"), kw.pop("extra", None)),
+                         symmetric_upper=symm, ordered=True, **kw)
+
+
+def matrix_kinds(rng, n, symm, kind=None):
+    """pixel lists [[i,j,v],…] sorted by (i,j); values distinct"""
+    kind = kind or rng.choice(["empty", "full", "diag", "nodiag", "onerow", "gaps", "random", "random", "dense-random"])
+    cells = [(i, j) for i in range(n) for j in range(n) if (i <= j or not symm)]
+    if kind == "empty":
+        sel = []
+    elif kind == "full":
+        sel = cells
+    elif kind == "diag":
+        sel = [(i, j) for i, j in cells if i == j]
+    elif kind == "nodiag":
+        sel = [(i, j) for i, j in cells if i != j]
+    elif kind == "onerow":
+        r = rng.randrange(n) if n else 0
+        sel = [(i, j) for i, j in cells if i == r]
+    elif kind == "gaps":
+        rows = {r for r in range(n) if rng.random() < 0.5}
+        rows.discard(0)
+        sel = [(i, j) for i, j in cells if i in rows and rng.random() < 0.7]
+    elif kind == "dense-random":
+        sel = [c for c in cells if rng.random() < 0.8]
+    else:
+        sel = [c for c in cells if rng.random() < 0.35]
+    return [[i, j, 1 + i * (n + 1) + j * 3 + (7 if i == j else 0)] for i, j in sel]
